@@ -241,3 +241,108 @@ Definition expected_syncLocked : list string := [
   "}";
   "return"
 ].
+
+(** verifyWithExecutor, as [Db/Verify.v] ([verify_gen]) and [Machine.verify] were written against it.
+    Reading guide: "if 0==exec.pos.TXID" = the first-sync exit ([pos = 0] / [l0 = []]); the block after
+    "call os.Stat" = the WAL is shorter than the cursor: with [exec.state.syncedToWALEnd] the
+    incremental answer from the new header that CLEARS the flag ([VIncrHdr true]), else the snapshot;
+    "if WALHeaderSize==info.offset" and the next "if _" (prevWALOffset == WALHeaderSize) = the two
+    cursor-at-the-start cases decided by the salt comparison alone; "call db.lastPageMatch" = the
+    frame in front of the cursor; then the salt-mismatch block: [info.offset = WALHeaderSize] with the
+    live salts, "if !exec.state.reachedWALEnd" = the fresh-session rule (c55c7c6: snapshot), and only
+    after it "call db.detectFullCheckpoint" ([detect_full]); the last assignment is the plain
+    incremental answer.  Guards that mention locals (saltMatch, lastPageMatch, detected, the file size)
+    are "if _": their VALUES are compared on every observed sync step (entry db_sync_step). *)
+Definition expected_verifyWithExecutor : list string := [
+  "set info.snapshotting = true";
+  "if 0==exec.pos.TXID {";
+  "set info.offset = WALHeaderSize";
+  "return";
+  "}";
+  "call os.Open";
+  "on-error {";
+  "return error";
+  "}";
+  "on-error {";
+  "return";
+  "}";
+  "set info.offset = expr";
+  "set info.salt1 = expr";
+  "set info.salt2 = expr";
+  "set info.prevCommit = expr";
+  "call os.Stat";
+  "if _ {";
+  "return error";
+  "} else {";
+  "if _ {";
+  "set exec.state.truncatePassiveFailed = false";
+  "if exec.state.syncedToWALEnd {";
+  "call readWALHeader";
+  "on-error {";
+  "return error";
+  "}";
+  "set info.offset = WALHeaderSize";
+  "set info.salt1 = expr";
+  "set info.salt2 = expr";
+  "set info.snapshotting = false";
+  "set info.clearSyncedToWALEnd = true";
+  "return";
+  "}";
+  "return";
+  "}";
+  "}";
+  "call readWALHeader";
+  "on-error {";
+  "return error";
+  "}";
+  "if _ {";
+  "set exec.state.truncatePassiveFailed = false";
+  "}";
+  "if WALHeaderSize==info.offset {";
+  "if _ {";
+  "set info.snapshotting = false";
+  "return";
+  "}";
+  "return";
+  "}";
+  "if _ {";
+  "if _ {";
+  "set info.snapshotting = false";
+  "return";
+  "}";
+  "return";
+  "} else {";
+  "if _ {";
+  "return error";
+  "}";
+  "}";
+  "call db.lastPageMatch";
+  "if _ {";
+  "return error";
+  "} else {";
+  "if _ {";
+  "return";
+  "}";
+  "}";
+  "if _ {";
+  "set info.offset = WALHeaderSize";
+  "set info.salt1 = expr";
+  "set info.salt2 = expr";
+  "if !exec.state.reachedWALEnd {";
+  "return";
+  "}";
+  "call db.detectFullCheckpoint";
+  "if _ {";
+  "return error";
+  "} else {";
+  "if _ {";
+  "} else {";
+  "set info.snapshotting = false";
+  "}";
+  "}";
+  "return";
+  "}";
+  "set info.snapshotting = false";
+  "return"
+].
+
